@@ -10,15 +10,15 @@ namespace Neumann.Graph
 theorem stays_addTo {F W : Key → Prop} {k : Key} {e : Nat} {c : Prog} (hF : F k) (hW : W k)
     (hc : ∀ m, Stays F W c m) : ∀ m, Stays F W (addTo k e c) m := by
   intro m; unfold addTo
-  exact .get _ _ _ hF (.put _ _ _ _ hW (hc _))
+  exact .acq _ _ _ (.get _ _ _ hF (.put _ _ _ _ hW (.rel _ _ _ (hc _))))
 
 theorem stays_rmFrom {F W : Key → Prop} {k : Key} {e : Nat} {c : Prog} (hF : F k) (hW : W k)
     (hc : ∀ m, Stays F W c m) : ∀ m, Stays F W (rmFrom k e c) m := by
   intro m; unfold rmFrom
-  refine .get _ _ _ hF ?_
+  refine .acq _ _ _ (.get _ _ _ hF ?_)
   cases m k with
-  | none => exact hc _
-  | some val => exact .put _ _ _ _ hW (hc _)
+  | none => exact .rel _ _ _ (hc _)
+  | some val => exact .put _ _ _ _ hW (.rel _ _ _ (hc _))
 
 /-- `create_edge(a, b)` after the existence checks, with its (pre-assigned) id `eid` -/
 def createEdgeTh (eid a b : Nat) (d : Bool) (ty v : Nat) : Th where
